@@ -217,13 +217,21 @@ def rules(ctx, tier):
         for (cs, how) in prog.callers_index().get(p, []):
             if cs.body.raw.get("impl_trait") == "std::iter::Iterator":
                 adaptors.add(cs.body.path)
-    for b in prog.bodies.values():
+    item_views = []
+    for b0 in prog.bodies.values():
+        if any(prog.local_target(s) is not None and prog.local_target(s).path in adaptors for s in b0.calls()):
+            item_views.append(b0)
+        elif not b0.is_closure and any(how == "extern-iter" and tg.path in adaptors
+                                       for s in b0.calls() for tg, how in prog.call_targets(s)):
+            # `reader.try_fold(.., |acc, entry| ..)`: judged in the flat view, where the adaptor is the loop it means
+            item_views.append(ctx.flat(b0))
+    for b in item_views:
         nexts = [s for s in b.calls() if prog.local_target(s) is not None and prog.local_target(s).path in adaptors]
         if not nexts:
             continue
         from ..prov import TRANSPARENT
         sl = Slicer(ctx.world, b, transparent=TRANSPARENT - {"std::iter::Iterator::next"})
-        rf = must.rf(b)
+        rf = ctx.rf(b)
         for nx in nexts:
             found = False
             for sw in b.normal_blocks():
